@@ -15,6 +15,7 @@ from ..astutil import (
     handler_catches,
     handler_reraises,
     is_within,
+    kwarg,
     src,
     walk_local,
 )
@@ -274,6 +275,87 @@ def _anc(n):
         cur = getattr(cur, '_parent', None)
 
 
+def r5_digest_covers_all_data(ctx, rule='C04.R5'):
+    """The digest an object is verified against is the hash of ALL its bytes: every hash adapter's digest(data) hands
+    `data` itself to the hash function (constructor argument / update / feed).  Hashing slices or blocks of it leaves room
+    for bytes that no digest covers (a dropped tail), and damage there is restored silently."""
+    corpus = ctx.corpus
+    mod = corpus.module('adapters')
+    n = 0
+    for ci in mod.classes.values():
+        f = ci.methods.get('digest')
+        if f is None:
+            continue
+        prm = [a.arg for a in f.node.args.posonlyargs + f.node.args.args]
+        if len(prm) != 2:
+            continue
+        dp = prm[1]
+        hashing = []
+        for c in ast.walk(f.node):
+            if not isinstance(c, ast.Call):
+                continue
+            d = dotted(c.func) or ''
+            if d.startswith('hashlib.') or (isinstance(c.func, ast.Attribute) and c.func.attr in ('update', 'feed')) or (isinstance(c.func, ast.Attribute) and isinstance(c.func.value, ast.Name) and c.func.value.id == 'self' and 'hasher' in c.func.attr):
+                hashing.append(c)
+        if not hashing:
+            continue
+        n += 1
+        ctx.analysed(f)
+        fed = [c for c in hashing if c.args or c.keywords]
+        whole = [c for c in fed if any(isinstance(a, ast.Name) and a.id == dp for a in c.args)]
+        partial = [c for c in fed if c not in whole and any(isinstance(x, ast.Name) for a in c.args for x in ast.walk(a))]
+        ctx.check(
+            bool(whole) and not partial,
+            rule,
+            f'{func_label(f)}|digest-hashes-the-whole-argument',
+            loc(f, (partial or fed or hashing)[0]),
+            f'{ci.name}.digest: `{dp}` is handed to the hash function as a whole',
+            f'{ci.name}.digest: the hash function is fed `{src((partial or hashing)[0], 50)}` - pieces of `{dp}` instead of `{dp}` itself: bytes outside the pieces (e.g. a tail shorter than one block) are not covered by '
+            'the digest, and damage to them passes verification',
+        )
+    ctx.floor(rule, 'hash adapters with a digest method', n, 3)
+
+
+def r6_failures_reach_the_exit_status(ctx, rule='C04.R3'):
+    """A detected inconsistency ends the command with an error: the entry point lets the exception escape, or exits with
+    a non-zero status.  (ArgumentParser.exit() without a status exits with 0.)"""
+    corpus = ctx.corpus
+    mainm = corpus.module('main')
+    n = 0
+    for f in mainm.all_functions:
+        for t in walk_local(f.node):
+            if not isinstance(t, ast.Try):
+                continue
+            runs_command = any(isinstance(c, ast.Call) and ((dotted(c.func) or '') in ('asyncio.run',) or (dotted(c.func) or '').endswith(('_cmd_handler', 'run_until_complete')) or (isinstance(c.func, ast.Attribute) and c.func.attr in ('snapshot', 'restore', 'clean', 'delete_snapshots', 'unlock'))) for st in t.body for c in ast.walk(st))
+            if not runs_command:
+                continue
+            for h in t.handlers:
+                n += 1
+                if handler_reraises(h):
+                    ctx.ok(rule, loc(f, h), f'{f.name}: the handler around the command re-raises')
+                    continue
+                exits = [c for st in h.body for c in ast.walk(st) if isinstance(c, ast.Call) and ((dotted(c.func) or '') in ('sys.exit', 'exit', 'os._exit') or (isinstance(c.func, ast.Attribute) and c.func.attr in ('exit', 'error')))]
+                nonzero = False
+                for c in exits:
+                    if isinstance(c.func, ast.Attribute) and c.func.attr == 'error':
+                        nonzero = True
+                    st_ = kwarg(c, 'status') or (c.args[0] if c.args else None)
+                    if isinstance(st_, ast.Constant) and (st_.value not in (0, None)):
+                        nonzero = True
+                    elif st_ is not None and not isinstance(st_, ast.Constant):
+                        nonzero = True
+                ctx.check(
+                    nonzero,
+                    rule,
+                    f'{func_label(f)}|failure-reaches-exit-status',
+                    loc(f, h),
+                    f'{f.name}: a failed command ends with a non-zero exit status',
+                    f'{f.name}: `except {", ".join(handler_catches(h)) or ""}` around the command neither re-raises nor exits with a non-zero status (`{src(exits[0], 50) if exits else "no exit call"}`): '
+                    'a restore that detected damaged data is reported to the caller (scripts, cron) as a success',
+                )
+    ctx.count('handlers_around_the_command', n)
+
+
 def run(ctx):
     from ..report import Relabel
     from .c02 import r3_skip_whitelist
@@ -283,3 +365,5 @@ def run(ctx):
     r2_snapshot_verify(ctx)
     r3_no_swallowed_auth_failure(ctx)
     r4_futures_observed(ctx)
+    r5_digest_covers_all_data(ctx)
+    r6_failures_reach_the_exit_status(ctx)
